@@ -4,7 +4,7 @@ from vlib import harness as H
 from vlib.runner import run_property
 from props.common import (cell_obligations, select_cells, rot, seed, COMMON_ASSUMPTIONS,
                           REAL_FUNCTIONS)
-from props import findings
+from props import findings, c02_families
 
 PAIRS_QUICK = [(0, 1), (0, 2), (3, 5)]
 PAIRS_ALL = [(0, 1), (0, 2), (0, 6), (3, 4), (3, 5), (1, 2)]
@@ -27,7 +27,7 @@ def generate(tier):
                             timeout)
     for o in obls:
         o.family = 'whole-program/' + o.family
-    return obls
+    return c02_families.generate(tier) + obls
 
 
 def run(tier):
@@ -35,7 +35,17 @@ def run(tier):
     return run_property(
         'C02', tier, 'translation_validation', obls,
         explanation=(
-            'Family 3 (whole programs): each catalogue cell is compiled at '
+            'Family 1 (folder vs machine): the real Expr.fold() of a '
+            'BinaryOp/UnaryOp over literal operands with SYMBOLIC values '
+            'vs the code the real gen_binary_op emits for the unfolded '
+            'node, executed by the real QvmCpu._exec_* methods: folded => '
+            'same type and value and encodable by the assembler; run-time '
+            'trap => not folded; fold() never raises.  Float / bitwise / '
+            '"/" / "^" operands are enumerated from a boundary table '
+            '(native execution; stated as enumeration).  Family 2 '
+            '(peephole windows): QvmCode.optimize() on instruction windows '
+            'with SYMBOLIC operands leaves stack, cells and control '
+            'transfer unchanged.  Family 3 (whole programs): each catalogue cell is compiled at '
             'two optimisation levels and both modules are run on the real '
             'VM with the same SYMBOLIC inputs; trace and outcome must agree '
             'on every path (implementation vs implementation).'),
